@@ -107,22 +107,26 @@ let run () =
     | "P" :: i :: p :: f :: ng :: u :: _ -> incr cases; id := i; pat := p; flags := f; ngroups := ios ng; unicode := bos u; re := None
     | "A" :: toks -> re := Some (fst (parse toks))
     | "J" :: toks ->
-      (* S1 (class sets): the IR of the class against the model of the parser's class set evaluation *)
+      (* S1 (atoms): ^ a1 ... ak $ - the flat Cat the parser builds against the models of the functions that build each
+         atom (Parser::char_node, the dot, the class set evaluation) *)
+      let rec flat r = (match r with RSeq (a, b) -> a :: flat b | x -> [x]) in
       (match !re, fst (parse_cnode toks) with
-       | Some (RSeq (_, RSeq (RChar (c, ic), _))), NCat [NCat [_; x; _]; NGoal] ->
-         incr an;
-         (match char_node ic !unicode c with
-          | Ok m when m = x -> ()
-          | _ -> incr mism; Printf.printf "MISMATCH stage=S1-atom case=%s pat=%s flags=%s detail=model-of-char_node-differs\n" !id !pat !flags)
-       | Some (RSeq (_, RSeq (RAny d, _))), NCat [NCat [_; x; _]; NGoal] ->
-         incr an;
-         if dot_node d <> x then begin incr mism; Printf.printf "MISMATCH stage=S1-atom case=%s pat=%s flags=%s detail=model-of-dot-differs\n" !id !pat !flags end
-       | Some (RSeq (_, RSeq (RVClass (e, ic), _))), NCat [NCat [_; x; _]; NGoal] ->
-         incr jn;
-         let m = class_node ic e in
-         if m <> x then begin
-           incr mism;
-           Printf.printf "MISMATCH stage=S1-classset case=%s pat=%s flags=%s detail=model-of-class-set-evaluation-differs\n" !id !pat !flags end
+       | Some r, NCat [NCat body; NGoal] ->
+         let rs = flat r in
+         let n = List.length rs in
+         if n >= 3 && List.length body = n then begin
+           let mid l = List.filteri (fun i _ -> i > 0 && i < n - 1) l in
+           List.iter2 (fun a x ->
+             let ok = (match a with
+               | RChar (c, ic) -> incr an; (match char_node ic !unicode c with Ok m -> m = x | _ -> false)
+               | RAny d -> incr an; dot_node d = x
+               | RVClass (e, ic) -> incr jn; class_node ic e = x
+               | _ -> true) in
+             if not ok then begin
+               incr mism;
+               Printf.printf "MISMATCH stage=S1-atom case=%s pat=%s flags=%s detail=model-of-the-atom-node-differs\n" !id !pat !flags end)
+             (mid rs) (mid body)
+         end
        | _ -> ())
     | "K" :: acc :: np :: _ ->
       (* C08: the early error on [^E] against MayContainStrings of E (reference) and the flag of the class set model *)
